@@ -352,6 +352,46 @@ def p_dict_basic(k):
     return (tuple(d.items()), e, f, g, h, i, j, 'a' in d, 'b' in d, len(d), tuple(d), tuple(d.keys()), tuple(d.values()))
 
 
+def p_dict_object_keys(k):
+    """objects of a class without __eq__/__hash__ are keys by identity (lookups and stores)"""
+    a, b = Box(1), Box(1)
+    d = {}
+    d[a] = 'first'
+    r0 = d.get(b)
+    d[b] = k
+    d[a] = 'again'
+    cached = d.get(a if k % 2 == 0 else b)
+    return (r0, cached, len(d), d.setdefault(b, 'x') == k, a in d)
+
+
+class _Log:
+    def debug(self, *a, **k):
+        return None
+
+    info = warning = debug
+
+
+logger = _Log()
+
+
+def p_logger_arguments(k):
+    """a logging call is a no-op - but an argument that calls something is evaluated, with its effects and its exceptions"""
+    seen = []
+
+    def note(x):
+        seen.append(x)
+        return x
+    logger.debug('plain {} {}', k, 'text')
+    logger.debug('effect {}', note(k))
+    try:
+        logger.info('raises {}', {'a': 1}.pop('a' if k else 'b'))        # a call inside the argument: KeyError for k == 0
+    except KeyError:
+        seen.append('key')
+    if k == 3:
+        logger.warning('raises {}', {}.pop('missing'))
+    return tuple(seen)
+
+
 def p_dict_errors(k):
     d = {1: 'x'}
     if k == 0:
